@@ -20,7 +20,9 @@ shape("Rule", feature="opt:ref:Feature", _use_background_inheritance="bool")
 shape("Background", description="any", steps="seq:ref:Step",
       inherited_background="opt:ref:Background", _inherited_steps="opt:seq:ref:Step",
       _use_inheritance="bool")
-shape("Scenario", description="any", steps="seq:ref:Step", background="opt:ref:Background",
+# continue_after_failed_step: class-level default False, but users set it per scenario (or on the class) in hooks:
+# declared as an instance field so that both modes are analysed
+shape("Scenario", continue_after_failed_step="bool", description="any", steps="seq:ref:Step", background="opt:ref:Background",
       feature="opt:ref:Feature", hook_failed="bool", _background_steps="opt:seq:ref:Step",
       _use_background="bool", _row="opt:ref:Row", was_dry_run="any")
 shape("ScenarioOutline", examples="seq:ref:Examples", _scenarios="seq:ref:Scenario")
